@@ -24,8 +24,17 @@ SgdStep(cfg, st) ==
 SgdInit(cfg) == [t |-> 0, x |-> cfg.x0, u |-> [i \in 1..Dim(cfg) |-> RZ], converged |-> FALSE]
 
 \* ---- Adam ----
+\* objective per coordinate: c |x - a| (gradient +-c) or, with cfg.hinge, the one-sided c (|x - a| + (x - a)) whose
+\* gradient is 2c to the right of a and EXACTLY ZERO to the left of it - the moments keep moving such a coordinate
 SignOf(r) == IF r[1] > 0 THEN 1 ELSE IF r[1] < 0 THEN 0 - 1 ELSE 0
-AGrad(cfg, x) == [i \in 1..Dim(cfg) |-> RMul(cfg.cw[i], R(SignOf(RSub(x[i], cfg.at[i]))))]
+Hinge(cfg) == "hinge" \in DOMAIN cfg /\ cfg.hinge
+GMag(cfg, i) == IF Hinge(cfg) THEN RMul(R(2), cfg.cw[i]) ELSE cfg.cw[i]
+AGrad(cfg, x) == [i \in 1..Dim(cfg) |-> RMul(cfg.cw[i], R(SignOf(RSub(x[i], cfg.at[i])) + (IF Hinge(cfg) THEN 1 ELSE 0)))]
+\* sqrt(vhat) must be rational for the exact oracle: it is looked up among multiples of the gradient magnitude and the
+\* state is marked inexact (and not expanded or emitted) when no candidate squares to vhat
+RootCands(cfg, i) == {RMul(GMag(cfg, i), k) : k \in {ROne, Norm(1, 2), Norm(1, 3), Norm(2, 3), Norm(3, 5)}}
+HasRoot(cfg, i, vh) == \E r \in RootCands(cfg, i) : RSq(r) = vh
+RootOf(cfg, i, vh) == CHOOSE r \in RootCands(cfg, i) : RSq(r) = vh
 AdamStep(cfg, st) ==
   LET t  == st.t + 1
       g  == AGrad(cfg, st.x)
@@ -33,8 +42,8 @@ AdamStep(cfg, st) ==
       v2 == [i \in 1..Dim(cfg) |-> RAdd(RMul(cfg.b2, st.v[i]), RMul(RSub(ROne, cfg.b2), RSq(g[i])))]
       mh == [i \in 1..Dim(cfg) |-> RDiv(m2[i], RSub(ROne, RPow(cfg.b1, t)))]
       vh == [i \in 1..Dim(cfg) |-> RDiv(v2[i], RSub(ROne, RPow(cfg.b2, t)))]
-      \* |g_i| = c_i at every step, hence vhat_i = c_i^2 and its square root is c_i
-      x2 == [i \in 1..Dim(cfg) |-> RSub(st.x[i], RDiv(RMul(cfg.alpha, mh[i]), RAdd(cfg.cw[i], cfg.eps)))]
-  IN [t |-> t, x |-> x2, m |-> m2, v |-> v2, vhat_is_c2 |-> (\A i \in 1..Dim(cfg) : vh[i] = RSq(cfg.cw[i])), converged |-> (x2 = st.x)]
-AdamInit(cfg) == [t |-> 0, x |-> cfg.x0, m |-> [i \in 1..Dim(cfg) |-> RZ], v |-> [i \in 1..Dim(cfg) |-> RZ], vhat_is_c2 |-> TRUE, converged |-> FALSE]
+      ex == \A i \in 1..Dim(cfg) : HasRoot(cfg, i, vh[i])
+      x2 == IF ex THEN [i \in 1..Dim(cfg) |-> RSub(st.x[i], RDiv(RMul(cfg.alpha, mh[i]), RAdd(RootOf(cfg, i, vh[i]), cfg.eps)))] ELSE st.x
+  IN [t |-> t, x |-> x2, m |-> m2, v |-> v2, exact |-> ex, zero_grad |-> (\E i \in 1..Dim(cfg) : RIsZero(g[i])), converged |-> (ex /\ x2 = st.x)]
+AdamInit(cfg) == [t |-> 0, x |-> cfg.x0, m |-> [i \in 1..Dim(cfg) |-> RZ], v |-> [i \in 1..Dim(cfg) |-> RZ], exact |-> TRUE, zero_grad |-> FALSE, converged |-> FALSE]
 =============================================================================
